@@ -332,6 +332,36 @@ def _finish_executor_rules(ck, prog, pm):
                 ck.ob("R6.resumed-operation-checks-first", cls_construct(ci), not badr, (badr[0][0] + ": " + trace_sig(badr[0][1])) if badr else "", cell=st2)
     ck.floor("first_time_user_entries", n_first, 3)
 
+    # R6 a BLOCKING checkpoint is a round trip to the backend: the update passed the orphan check when it was enqueued, and while the call is in flight the
+    # enclosing map / parallel / child context can be handed its completion record. The branch wakes up orphaned with every earlier check behind it - so
+    # between a synchronous checkpoint and the operation's user function the orphan state is asked again (r8_C10: "the START just went through the same
+    # check" - true for the instant of the enqueue, not for the moment the caller is released)
+    n_blk = 0
+    for name, ci in pm.executors.items():
+        from sa.common import applicable_cells as _ac2
+        for name2, ci2, ot2, st2 in _ac2(pm):
+            if ci2 is not ci:
+                continue
+            badk = []
+            n_cell = 0
+            for t in pm.run_cell(ci, st2, faults=False):
+                evs = t.events
+                own_fn = user_events(t, "user") + user_events(t, "strategy")
+                first_eff = next((i for i, e in enumerate(evs) if e.kind == "USER" and any(e is u for u in own_fn)), None)
+                if first_eff is None:
+                    continue
+                blocking = [i for i, e in enumerate(evs[:first_eff]) if e.kind == "CKPT" and e.data.get("sync")]
+                if not blocking:
+                    continue
+                n_blk += 1
+                n_cell += 1
+                if not any(e.kind == "ORPHANCHECK" for e in evs[blocking[-1] + 1:first_eff]):
+                    badk.append((f"after its blocking {evs[blocking[-1]].data.get('action')} checkpoint returned, an operation found {st2} enters its user code without asking "
+                                 "the orphan state again: the parent may have been handed its completion record while the call was in flight", t))
+            if n_cell:
+                ck.ob("R6.asks-again-after-a-blocking-checkpoint", cls_construct(ci), not badk, (badk[0][0] + ": " + trace_sig(badk[0][1])) if badk else "", cell=st2)
+    ck.floor("user_entries_after_a_blocking_checkpoint", n_blk, 1)
+
     # R8: "a still-running orphaned branch is stopped at its NEXT durable operation" - also when that operation is answered from its record
     # (re-invocation: the surviving branch traverses operations an earlier invocation completed while a sibling completes the map/parallel).
     # Judged on the executor table: a terminal cell that delivers the recorded outcome without a checkpoint and without a query of the orphan state
